@@ -167,4 +167,15 @@ theorem scan_inl {α : Type} {f : α → Option Bool} {xs : List α} {x : α} (h
     | none => rw [hy] at h; simp at h; rw [← h]; exact hy
     | some b => rw [hy] at h; cases b <;> simp at h; exact ih h
 
+/-- a body that returns `f x` at the first element with `p x` and otherwise leaves the state alone -/
+theorem forRange_findRet {α ρ σ : Type} (p : α → Bool) (f : α → ρ) (body : α → σ → Ctl ρ σ)
+    (h : ∀ x s, body x s = if p x then .ret (f x) else .next s) (xs : List α) (s : σ) :
+    forRange xs s body = match xs.find? p with | some x => .ret (f x) | none => .done s := by
+  induction xs with
+  | nil => simp [forRange]
+  | cons x rest ih =>
+    by_cases hp : p x = true
+    · simp [forRange, h, hp]
+    · simp [forRange, h, hp, ih]
+
 end KM.Go
